@@ -45,13 +45,13 @@ RULE = ('corpus + directed prefix (every type x {typical value, None, class leve
         '0/1/999999, date-only and datetime ranges, big ints, extreme floats, empty containers, nested tuples, non-string '
         'keys) + random classes of 1-5 parameters over all 17 types with values accepted by the real Parameter; '
         'the state, the json.loads tree, strict-JSON flag, deserialize_parameters result, rebuilt object, per-parameter '
-        'serialize_value/deserialize_value, the subset= variants (text produced with the subset, and the full text read back with the subset), one fifth of the cases reach their final declaration through serialize -> Cls.param.add_parameter (new parameters, or a String replaced by another type) -> serialize, and a second deserialization of the same text after the first result (and the object rebuilt from it) had its lists/dicts edited in place (equal to the state again, no shared container objects) are compared with the model and checked by the oracle. '
+        'serialize_value/deserialize_value, the subset= variants (text produced with the subset, and the full text read back with the subset), one fifth of the cases reach their final declaration through serialize -> Cls.param.add_parameter (new parameters, or a String replaced by another type) -> serialize, another fifth leave parameters unset on the instance, touch its per-instance Parameter objects and then assign the class default (the instance follows it), and a second deserialization of the same text after the first result (and the object rebuilt from it) had its lists/dicts edited in place (equal to the state again, no shared container objects) are compared with the model and checked by the oracle. '
         'non-trivial = oracle applicable and at least one non-name parameter with a non-None value; distinct = distinct canonical case')
 COVERAGE_TARGETS = [f'{t}:value' for t in G.TYPES15 if t not in ('DateRange', 'CalendarDateRange')] + \
                    [f'{t}:none' for t in ('Number', 'String', 'Boolean', 'Tuple', 'Range', 'Date', 'CalendarDate',
                                           'DateRange', 'CalendarDateRange', 'Selector', 'ListSelector', 'Color')] + \
                    ['DateRange:dates', 'DateRange:datetimes', 'CalendarDateRange:dates', 'year<1000',
-                    'non-native-element', 'non-finite', 'level:class', 'level:instance', 'subset', 'history:add_parameter']
+                    'non-native-element', 'non-finite', 'level:class', 'level:instance', 'subset', 'history:add_parameter', 'history:class-default-after-instance']
 
 
 def _vals(obj, names):
@@ -285,6 +285,11 @@ def directed():
     yield G.with_history(full, ['p1', 'p6'], [old('p3')])
     yield G.with_history(G.mk_case(ps, vals, 'class', None, ['p0', 'p1']), ['p0'], [old('p1')])
     yield G.with_history(G.mk_case(ps, vals, 'instance', None, None), [], [old('p1'), old('p0')])
+    # histories: parameters left unset on the instance, per-instance Parameter objects touched, class default assigned
+    vals2 = list(vals)
+    vals2[1], vals2[2], vals2[7] = enc_val((3, 'b')), _dt(2021, 2, 3, 4, 5, 6), enc_val(2.5)
+    yield dict(G.mk_case(ps, vals2, 'instance', None, None), unset=['p0', 'p1', 'p6'])
+    yield dict(G.mk_case(ps, vals2, 'instance', None, ['p0', 'p6']), unset=['p0', 'p1', 'p2', 'p3', 'p4', 'p5', 'p6'])
 
 
 def cases(rng, tier, worker, nworkers):
@@ -300,6 +305,8 @@ def cases(rng, tier, worker, nworkers):
         c = G.gen_case(rng, param, G.TYPES15, opts_clean if i % 3 else opts_all)
         if i % 5 == 2:
             c = G.gen_history(rng, c)
+        elif i % 5 == 4:
+            c = G.gen_unset(rng, c)
         yield c
 
 
@@ -309,6 +316,8 @@ def tags(case, impl):
         t.append('subset')
     if case.get('added') or case.get('replaced'):
         t.append('history:add_parameter')
+    if case.get('unset'):
+        t.append('history:class-default-after-instance')
     for d in case['params'][1:]:
         t.append('type:' + d['type'])
     if isinstance(impl, dict) and impl.get('invalid'):
